@@ -215,7 +215,7 @@ def prove(prop_file: str, timeout=1200):
 def _run_shard(args):
     path, timeout = args
     t0 = time.time()
-    p = sh(f"timeout {timeout} coqc -Q {COQ} DL {path}", timeout=timeout + 30)
+    p = sh(f"ulimit -s unlimited 2>/dev/null || ulimit -s 4000000; timeout {timeout} coqc -Q {COQ} DL {path}", timeout=timeout + 30)
     return path, p.returncode, p.stdout, time.time() - t0
 
 
